@@ -78,9 +78,9 @@ def parse(path):
     return events, fired, junk
 
 
-def rule(ops, path_sub=b"", nth=0, action="killb"):
-    """One plan rule. ops: 'MUT' | 'READ' | 'ANY' | comma list of op names."""
-    return "%s|%s|%d|%s" % (ops, path_sub.hex(), nth, action)
+def rule(ops, path_sub=b"", nth=0, action="killb", exact=False):
+    """One plan rule. ops: 'MUT' | 'READ' | 'ANY' | comma list of op names. exact: path1 must equal path_sub."""
+    return "%s|%s%s|%d|%s" % (ops, "=" if exact else "", path_sub.hex(), nth, action)
 
 
 def plan(*rules):
